@@ -54,19 +54,19 @@ def gen_dir(rng, depth, knobs):
         used.add(x)
         return x
     nmax = knobs.get("nmax", 4)
-    n = rng.choice(range(nmax + 1))
+    n = rng.choice(list(range(nmax + 1)) + [nmax, max(1, nmax - 1)])
     for _ in range(n):
         r = rng.random()
-        if r < 0.40:
+        if r < 0.36:
             pool = MD_NAMES if rng.random() > knobs.get("p_dotted", 0.04) else DOTTED
             nm = fresh(pool)
             if nm:
                 es.append(F_(nm, titled=rng.random() > knobs.get("p_untitled", 0.2), style=rng.randrange(4)))
-        elif r < 0.55:
+        elif r < 0.48:
             nm = fresh(OTHER)
             if nm:
                 es.append(F_(nm, titled=rng.random() < 0.5))
-        elif r < 0.65 and knobs.get("hidden", True):
+        elif r < 0.56 and knobs.get("hidden", True):
             nm = fresh(HIDDEN)
             if nm:
                 es.append(F_(nm, titled=rng.random() < 0.7))
@@ -291,6 +291,10 @@ def exhaustive_family():
     cps = [[], ["images"], ["sub", "nodir"]]
     for bits, s_in, i_in, o, c, sc in itertools.product(tops, inner, inner[:4], ords, cps, [[], ["images"]]):
         es = []
+        present = {"index.md", ".h.md", "zz.md"} | ({"a.md"} if bits[0] else set()) | ({"b.md"} if bits[1] else set()) \
+            | ({"f.txt"} if bits[2] else set()) | ({"sub"} if s_in is not None else set()) \
+            | ({"images"} if i_in is not None else set())
+        o = [x for x in o if x in present]
         if bits[0]:
             es.append(T("a.md"))
         if bits[1]:
@@ -505,20 +509,19 @@ def end_to_end(chk, rng, nproj):
                 if breadcrumb_targets(doc, out, text) != chain:
                     probs.append(f"{out}: breadcrumb {breadcrumb_targets(doc, out, text)}, expected {chain}")
             stats["pages"] += len(pages)
-            # other files copied beside
+            # other files copied beside the pages of their directory
             for rel, e in files_of(es):
-                if e is None or "/" in rel and False:
+                if e is None:
                     continue
                 d = posixpath.dirname(rel)
-                reachable = (d + "/index.html" if d else "index.html") in want
                 n = e["n"]
-                if reachable and not n.endswith(".md") and not n.startswith(".") and not n.endswith("~"):
-                    chain_visible = all(not p.startswith(".") and not p.endswith("~") for p in d.split("/") if p)
-                    if chain_visible:
-                        f = doc / "page" / rel
-                        if not f.is_file() or (f.read_text() != f"SRC:{rel}\n" and (rel, "x") and
-                                               rel not in [o for _, o in pages]):
-                            probs.append(f"file {rel} was not copied beside its pages")
+                if (d + "/index.html" if d else "index.html") not in want:
+                    continue
+                if n.endswith(".md") or n.startswith(".") or n.endswith("~") or rel in want:
+                    continue
+                f = doc / "page" / rel
+                if not f.is_file() or f.read_text() != f"SRC:{rel}\n":
+                    probs.append(f"file {rel} was not copied beside its pages")
             if probs:
                 chk.violation("failing-input", {"what": "static pages of a full FORD run", "problems": probs[:10],
                                                 "tree": es, "bodies": bodies}, True)
